@@ -24,6 +24,10 @@ type fact struct {
 	what string
 	// direct reports whether conditional edge ce in fn establishes the fact itself.
 	direct func(c *Ctx, fn *ssa.Function, ce ir.CondEdge) bool
+	// undecided (optional): a reason why, in the cone of fn, the fact is tested in
+	// a shape the direct predicate does not evaluate ("" if there is none). Only
+	// consulted when the fact is not established.
+	undecided func(c *Ctx, fn *ssa.Function) string
 }
 
 type acceptEngine struct {
@@ -288,6 +292,12 @@ func acceptingReturnsMode(fn *ssa.Function, errMode bool) []*ssa.Return {
 				continue
 			}
 			out = append(out, r)
+		case rs.Len() > 1 && isBoolType(rs.At(rs.Len()-1).Type()):
+			// (value, ok): ok == false is the rejecting outcome
+			if k, ok := effectiveResult(fn, r, rs.Len()-1).(*ssa.Const); ok && k.Value != nil && !constant.BoolVal(k.Value) {
+				continue
+			}
+			out = append(out, r)
 		case rs.Len() == 1 && nilable(rs.At(0).Type()):
 			// a lookup: a non-nil result is the accepting outcome
 			if ir.IsNilConst(effectiveResult(fn, r, 0)) {
@@ -359,7 +369,11 @@ func (e *acceptEngine) observe(fn *ssa.Function, ce ir.CondEdge) (*ssa.Call, boo
 	if core, neg := ir.Peel(cond); isBoolType(core.Type()) && truth != neg {
 		if call := callOf(core); call != nil {
 			if ex, isEx := core.(*ssa.Extract); isEx && ex.Index != 0 {
-				return nil, false
+				// (value, ok) helpers: the ok result is the verdict
+				sig := call.Common().Signature()
+				if !(ex.Index == sig.Results().Len()-1 && isBoolType(sig.Results().At(ex.Index).Type())) {
+					return nil, false
+				}
 			}
 			if callee := ir.Callee(call); callee != nil && e.c.P.InLib(callee) {
 				return call, false
@@ -635,7 +649,13 @@ func (e *acceptEngine) Require(rule string, fn *ssa.Function, facts []*fact) {
 			// acceptance computed through function values that the path engine does not
 			// follow (callbacks of library functions, generic helpers that take the
 			// predicate as a parameter): the fact may hold, it is not decided here
-			if at := e.unfollowedCall(fn); at != "" {
+			if f.undecided != nil {
+				if why := f.undecided(e.c, fn); why != "" {
+					e.c.R.Infof(rule+"."+f.id, name(fn), f.id, e.c.Pos(fn.Pos()), "not decided for this shape: "+f.what+" — "+why)
+					continue
+				}
+			}
+			if at := e.unfollowedCall(fn, f, nil); at != "" {
 				e.c.R.Infof(rule+"."+f.id, name(fn), f.id, e.c.Pos(fn.Pos()), "not decided for this shape: "+f.what+" — the accepting outcome depends on a function value the path engine does not follow ("+at+")")
 				continue
 			}
@@ -647,20 +667,33 @@ func (e *acceptEngine) Require(rule string, fn *ssa.Function, facts []*fact) {
 }
 
 // unfollowedCall looks, in fn and the library functions it statically calls
-// (with their function literals), for a call whose callee is a function value
-// that is not fixed by the code (a func-typed parameter, a table entry) or a
-// call that hands a library function literal to a function outside the
-// library (a callback). Returns where, "" if there is none.
-func (e *acceptEngine) unfollowedCall(fn *ssa.Function) string {
+// (with their function literals), for a function value the path engine does not
+// follow and that matters for the fact: a call of a function value that is not
+// fixed by the code and yields a verdict (bool / error result), or a library
+// function literal (or method value) in whose call cone the fact's evidence
+// lies and that is handed to code outside the library or called through a
+// value. Returns where, "" if there is none. relevant (optional) replaces the
+// evidence test.
+func (e *acceptEngine) unfollowedCall(fn *ssa.Function, f *fact, relevant func(*ssa.Function) bool) string {
+	if relevant == nil {
+		relevant = func(g *ssa.Function) bool { return f != nil && e.evidenceInCone(g, f, map[*ssa.Function]bool{}, 0) }
+	}
+	verdict := func(sig *types.Signature) bool {
+		rs := sig.Results()
+		if rs.Len() == 0 {
+			return false
+		}
+		return isBoolType(rs.At(0).Type()) || isErrorType(rs.At(rs.Len()-1).Type())
+	}
 	seen := map[*ssa.Function]bool{}
 	var at string
-	var walk func(f *ssa.Function, depth int)
-	walk = func(f *ssa.Function, depth int) {
-		if f == nil || seen[f] || depth > 4 || at != "" || f.Blocks == nil {
+	var walk func(g *ssa.Function, depth int)
+	walk = func(g0 *ssa.Function, depth int) {
+		if g0 == nil || seen[g0] || depth > 4 || at != "" || g0.Blocks == nil {
 			return
 		}
-		seen[f] = true
-		for _, g := range withAnon(f) {
+		seen[g0] = true
+		for _, g := range withAnon(g0) {
 			instrsOf(g, func(i ssa.Instruction) {
 				call, ok := i.(ssa.CallInstruction)
 				if !ok || at != "" {
@@ -675,31 +708,33 @@ func (e *acceptEngine) unfollowedCall(fn *ssa.Function) string {
 				}
 				callee := ir.Callee(call)
 				if callee == nil {
-					at = "call of a function value at " + e.c.IPos(i)
+					if verdict(cc.Signature()) {
+						at = "call of a function value at " + e.c.IPos(i)
+					}
 					return
 				}
-				if cc.StaticCallee() == nil || strings.HasSuffix(callee.Name(), "$bound") {
-					// a method value / constructed function literal: followed by the resolver, but
-					// what it captured (the certificate, the signer) is not tracked through it
-					if strings.HasSuffix(callee.Name(), "$bound") {
-						at = "call of a method value at " + e.c.IPos(i)
-						return
-					}
+				if strings.HasSuffix(callee.Name(), "$bound") && relevant(callee) {
+					at = "call of a method value at " + e.c.IPos(i)
+					return
 				}
 				if e.c.P.InLib(callee) {
 					walk(callee, depth+1)
 					return
 				}
 				for _, a := range cc.Args {
-					switch x := ir.StripConv(a).(type) {
-					case *ssa.MakeClosure:
-						if cf, isF := x.Fn.(*ssa.Function); isF && e.c.P.InLib(cf) {
-							at = "function literal handed to " + ir.CallID(call) + " at " + e.c.IPos(i)
+					if _, isSig := a.Type().Underlying().(*types.Signature); !isSig {
+						continue
+					}
+					cf := ir.FuncValue(ir.StripConv(a))
+					if cf == nil {
+						// a function value of unknown origin handed to outside code
+						if verdict(a.Type().Underlying().(*types.Signature)) {
+							at = "function value handed to " + ir.CallID(call) + " at " + e.c.IPos(i)
 						}
-					case *ssa.Function:
-						if e.c.P.InLib(x) {
-							at = "function handed to " + ir.CallID(call) + " at " + e.c.IPos(i)
-						}
+						continue
+					}
+					if cf != nil && e.c.P.InLib(cf) && relevant(cf) {
+						at = "function literal handed to " + ir.CallID(call) + " at " + e.c.IPos(i)
 					}
 				}
 			})
@@ -707,6 +742,55 @@ func (e *acceptEngine) unfollowedCall(fn *ssa.Function) string {
 	}
 	walk(fn, 0)
 	return at
+}
+
+// evidenceInCone: g, a function literal inside it or a library function it
+// statically calls contains a branch or a returned value that establishes f.
+func (e *acceptEngine) evidenceInCone(g *ssa.Function, f *fact, seen map[*ssa.Function]bool, depth int) bool {
+	if g == nil || seen[g] || depth > 6 || g.Blocks == nil {
+		return false
+	}
+	seen[g] = true
+	for _, h := range withAnon(g) {
+		for _, ce := range ir.CondEdges(h) {
+			if f.direct(e.c, h, ce) {
+				return true
+			}
+		}
+		for _, r := range ir.Returns(h) {
+			for _, v := range r.Results {
+				if isBoolType(v.Type()) {
+					if core, neg := ir.Peel(v); f.direct(e.c, h, ir.CondEdge{Cond: core, Truth: !neg}) {
+						return true
+					}
+				}
+			}
+		}
+		found := false
+		// any boolean value computed in h that is the fact's test (a conjunct of a
+		// returned expression, a table-driven check)
+		instrsOf(h, func(i ssa.Instruction) {
+			if v, ok := i.(ssa.Value); ok && !found && isBoolType(v.Type()) {
+				if f.direct(e.c, h, ir.CondEdge{Cond: v, Truth: true}) || f.direct(e.c, h, ir.CondEdge{Cond: v, Truth: false}) {
+					found = true
+				}
+			}
+		})
+		if found {
+			return true
+		}
+		instrsOf(h, func(i ssa.Instruction) {
+			if call, ok := i.(ssa.CallInstruction); ok && !found {
+				if callee := ir.Callee(call); callee != nil && e.c.P.InLib(callee) && e.evidenceInCone(callee, f, seen, depth+1) {
+					found = true
+				}
+			}
+		})
+		if found {
+			return true
+		}
+	}
+	return false
 }
 
 // ---------------------------------------------------------------- fact predicates
@@ -951,6 +1035,35 @@ var factImageDigest = &fact{id: "image-digest", what: "the SHA-256 of the image 
 	}}
 
 var factDigestAlg = &fact{id: "digest-algorithm", what: "the digest algorithm named in the signed content is SHA-256 (the hash that is actually computed)",
+	undecided: func(c *Ctx, fn *ssa.Function) string {
+		// the accepted identifiers are looked up in a package-level table
+		reach, _ := c.Reachable([]*ssa.Function{fn})
+		why := ""
+		for g := range reach {
+			if !c.P.InLib(g) || why != "" {
+				continue
+			}
+			instrsOf(g, func(i ssa.Instruction) {
+				call, ok := i.(*ssa.Call)
+				if !ok || ir.CallID(call) != "encoding/asn1.ObjectIdentifier.Equal" || why != "" {
+					return
+				}
+				for _, a := range call.Call.Args {
+					for v := range c.sliceOf(a) {
+						if gl, isG := v.(*ssa.Global); isG && gl.Pkg != nil && c.P.InModule(gl.Pkg.Func("init")) {
+							switch gl.Type().Underlying().(*types.Pointer).Elem().Underlying().(type) {
+							case *types.Slice, *types.Array, *types.Map:
+								if _, isOID := gl.Type().Underlying().(*types.Pointer).Elem().(*types.Named); !isOID {
+									why = "the identifier is compared with entries of the package-level table " + gl.Name() + " in " + name(g)
+								}
+							}
+						}
+					}
+				}
+			})
+		}
+		return why
+	},
 	direct: func(c *Ctx, fn *ssa.Function, ce ir.CondEdge) bool {
 		call, ok := ce.Cond.(*ssa.Call)
 		if !ok || !ce.Truth || ir.CallID(call) != "encoding/asn1.ObjectIdentifier.Equal" {
@@ -959,7 +1072,46 @@ var factDigestAlg = &fact{id: "digest-algorithm", what: "the digest algorithm na
 		sa, sb := c.sliceOf(call.Call.Args[0]), c.sliceOf(call.Call.Args[1])
 		oid := func(s map[ssa.Value]bool) bool { return ir.HasGlobal(s, M+"/pkcs7.OIDDigestAlgorithmSHA256") }
 		alg := func(s map[ssa.Value]bool) bool {
-			return ir.HasField(s, M+"/authenticode.Authenticode.Algid") || ir.HasField(s, "crypto/x509/pkix.AlgorithmIdentifier.Algorithm")
+			if ir.HasField(s, M+"/authenticode.Authenticode.Algid") || ir.HasField(s, "crypto/x509/pkix.AlgorithmIdentifier.Algorithm") {
+				return true
+			}
+			// a helper that is handed the identifier: every library caller passes the signed one
+			for v := range s {
+				p, isP := v.(*ssa.Parameter)
+				if !isP || p.Parent() != fn {
+					continue
+				}
+				idx := -1
+				for k, q := range fn.Params {
+					if q == p {
+						idx = k
+					}
+				}
+				node := c.P.CallGraph().Nodes[fn]
+				if node == nil || len(node.In) == 0 || idx < 0 {
+					continue
+				}
+				all := true
+				for _, in := range node.In {
+					if in.Site == nil || !c.P.InLib(in.Caller.Func) {
+						all = false
+						break
+					}
+					args := ir.CallArgs(in.Site)
+					if idx >= len(args) {
+						all = false
+						break
+					}
+					as := c.sliceOf(args[idx])
+					if !(ir.HasField(as, M+"/authenticode.Authenticode.Algid") || ir.HasField(as, "crypto/x509/pkix.AlgorithmIdentifier.Algorithm")) {
+						all = false
+					}
+				}
+				if all {
+					return true
+				}
+			}
+			return false
 		}
 		if oid(sa) && alg(sb) || oid(sb) && alg(sa) {
 			return true
@@ -979,8 +1131,129 @@ var factDigestAlg = &fact{id: "digest-algorithm", what: "the digest algorithm na
 			}
 			return len(alts) > 0
 		}
-		return allSHA(call.Call.Args[0]) && alg(sb) || allSHA(call.Call.Args[1]) && alg(sa)
+		if allSHA(call.Call.Args[0]) && alg(sb) || allSHA(call.Call.Args[1]) && alg(sa) {
+			return true
+		}
+		// ... or from a package-level table that only the initialiser fills
+		globalSHA := func(v ssa.Value) bool {
+			rows, ok := c.globalTableColumn(v)
+			if !ok || len(rows) == 0 {
+				return false
+			}
+			for _, r := range rows {
+				if !isGlobalLoad(ir.StripConv(r), M+"/pkcs7.OIDDigestAlgorithmSHA256") {
+					return false
+				}
+			}
+			return true
+		}
+		return globalSHA(call.Call.Args[0]) && alg(sb) || globalSHA(call.Call.Args[1]) && alg(sa)
 	}}
+
+// globalTableColumn: v reads field k of the element at a running index of a
+// package-level slice or array of structs that is built once in the package
+// initialiser and never written by library code; returns the values the
+// initialiser stores into field k of every row.
+func (c *Ctx) globalTableColumn(v ssa.Value) ([]ssa.Value, bool) {
+	v = ir.StripConv(v)
+	field := -1
+	var elem ssa.Value
+	switch x := v.(type) {
+	case *ssa.Field: // row := table[i]; row.f
+		field, elem = x.Field, x.X
+	case *ssa.UnOp:
+		if fa, ok := x.X.(*ssa.FieldAddr); ok && x.Op == token.MUL {
+			field, elem = fa.Field, fa.X
+		}
+	}
+	if field < 0 {
+		return nil, false
+	}
+	// elem: *table[i], or &table[i]
+	if ld, ok := elem.(*ssa.UnOp); ok && ld.Op == token.MUL {
+		elem = ld.X
+	}
+	ia, ok := elem.(*ssa.IndexAddr)
+	if !ok {
+		return nil, false
+	}
+	base := ia.X
+	if ld, ok := base.(*ssa.UnOp); ok && ld.Op == token.MUL {
+		base = ld.X
+	}
+	g, ok := base.(*ssa.Global)
+	if !ok || g.Pkg == nil {
+		return nil, false
+	}
+	// written only by the initialiser
+	for _, fn := range c.P.LibFunctions() {
+		if fn.Name() == "init" {
+			continue
+		}
+		bad := false
+		instrsOf(fn, func(i ssa.Instruction) {
+			if st, isSt := i.(*ssa.Store); isSt {
+				if ir.RootOf(st.Addr) == ssa.Value(g) {
+					bad = true
+				}
+				if ld, isLd := ir.RootOf(st.Addr).(*ssa.UnOp); isLd && ld.X == ssa.Value(g) {
+					bad = true
+				}
+			}
+		})
+		if bad {
+			return nil, false
+		}
+	}
+	init := g.Pkg.Func("init")
+	if init == nil {
+		return nil, false
+	}
+	var arr *ssa.Alloc
+	n := 0
+	instrsOf(init, func(i ssa.Instruction) {
+		if st, isSt := i.(*ssa.Store); isSt && st.Addr == ssa.Value(g) {
+			n++
+			if sl, isSl := st.Val.(*ssa.Slice); isSl {
+				arr, _ = sl.X.(*ssa.Alloc)
+			}
+		}
+	})
+	if n != 1 || arr == nil {
+		return nil, false
+	}
+	rows := map[int64]ssa.Value{}
+	length := arr.Type().Underlying().(*types.Pointer).Elem().Underlying().(*types.Array).Len()
+	okAll := true
+	instrsOf(init, func(i ssa.Instruction) {
+		st, isSt := i.(*ssa.Store)
+		if !isSt {
+			return
+		}
+		fa, isFA := st.Addr.(*ssa.FieldAddr)
+		if !isFA || fa.Field != field {
+			return
+		}
+		ia2, isIA := fa.X.(*ssa.IndexAddr)
+		if !isIA || ia2.X != ssa.Value(arr) {
+			return
+		}
+		k, isK := ir.ConstInt(ia2.Index)
+		if !isK {
+			okAll = false
+			return
+		}
+		rows[k] = st.Val
+	})
+	if !okAll || int64(len(rows)) != length {
+		return nil, false
+	}
+	var out []ssa.Value
+	for k := int64(0); k < length; k++ {
+		out = append(out, rows[k])
+	}
+	return out, true
+}
 
 // effectiveResult: result k of return r. With named results and deferred calls
 // go/ssa stores the operands into the result cells, runs the defers and returns
